@@ -5,7 +5,7 @@ package writer
 // document, an unsupported action, an oversize document, a malformed document, an
 // unsafe index name, and as last action: a truncated document, a missing
 // document line, an unsupported action without a newline) is sent through the real
-// handler; the response must carry one item per action, and `errors` must be
+// handler, and once more with a blank last line when the body ends in a newline; the response must carry one item per action, and `errors` must be
 // true iff some item failed.  Independent of how the handler keeps its flags, so
 // it also decides a restructured body whose loop contract went stale.
 
@@ -66,7 +66,15 @@ func Test_Bounded_BulkErrorsFlag(t *testing.T) {
 
 	inputs := 0
 	var rec func(seq []int)
+	var checkBody func(seq []int, trailingBlankLine bool)
 	check := func(seq []int) {
+		checkBody(seq, false)
+		// a blank last line is the end of the body, not one more action
+		if strings.HasSuffix(kinds[seq[len(seq)-1]].lines, "\n") {
+			checkBody(seq, true)
+		}
+	}
+	checkBody = func(seq []int, trailingBlankLine bool) {
 		var body strings.Builder
 		var names []string
 		wantFailed := false
@@ -74,6 +82,10 @@ func Test_Bounded_BulkErrorsFlag(t *testing.T) {
 			body.WriteString(kinds[k].lines)
 			names = append(names, kinds[k].name)
 			wantFailed = wantFailed || kinds[k].fails
+		}
+		if trailingBlankLine {
+			body.WriteString("\n")
+			names = append(names, "(blank last line)")
 		}
 		inputs++
 		_, resp, _ := HandleBulkBody([]byte(body.String()), nil, 0, 0, false)
